@@ -2,7 +2,13 @@
 
 package reader
 
-import "github.com/milvus-io/milvus/pkg/mq/msgstream"
+import (
+	clientv3 "go.etcd.io/etcd/client/v3"
+
+	"github.com/milvus-io/milvus/pkg/mq/msgstream"
+
+	"github.com/zilliztech/milvus-cdc/core/config"
+)
 
 // VerifYield, when set by a simulation harness, is called at a few lock-free
 // points of the pack pipeline and of the drop barrier so that a scheduler can
@@ -50,4 +56,15 @@ func VerifChannelTable(m interface{}) (table map[string]string, sourceIsKey bool
 	r.channelLock.RLock()
 	defer r.channelLock.RUnlock()
 	return r.channelMapping.VerifTable()
+}
+
+// VerifEtcdClient, when set by a simulation harness, supplies the etcd client of
+// every EtcdOp instead of dialing the configured endpoints.
+var VerifEtcdClient func(cfg config.EtcdServerConfig) *clientv3.Client
+
+func verifEtcdClient(cfg config.EtcdServerConfig) *clientv3.Client {
+	if f := VerifEtcdClient; f != nil {
+		return f(cfg)
+	}
+	return nil
 }
